@@ -114,10 +114,10 @@ func TestC10StoreFaults(t *testing.T) {
 
 // c10KnownIndexSwallow: putAddrAccountIndex returns nil when its first Put
 // fails (success with a partial effect). Tolerated only while listed as open.
-const c10KnownIndexSwallow = "F12"
+const c10KnownIndexSwallow = "F13"
 
 var mgrWeights = map[string]int{
-	"next": 8, "extend": 2, "lookup": 3, "derivePath": 1, "markUsed": 2, "lock": 1, "unlock": 4, "changePass": 1,
+	"next": 8, "extend": 2, "lookup": 3, "derivePath": 1, "markUsed": 2, "lock": 1, "unlock": 5, "changePass": 1,
 	"newAccount": 3, "newWOAcct": 3, "rename": 2, "importKey": 2, "importScript": 2, "setSynced": 2, "newScope": 1, "restart": 1,
 }
 
@@ -138,6 +138,9 @@ func TestC10ManagerFaults(t *testing.T) {
 		defer c.End()
 		m := mgrsim.New(t, "C10", c)
 		defer m.Close()
+		if rapid.Bool().Draw(t, "startUnlocked") {
+			m.OpUnlock(t) // half of the histories do not start locked
+		}
 		enums, multi := 0, 0
 		enumerate := func() {
 			for try := 0; try < 3; try++ {
